@@ -16,7 +16,7 @@ RULE = (
     "mass-action rates; one third with an influx k*time, i.e. a model that reads the absolute time): 2-10 operations from simulate(t_end, steps), simulate_time_course(points), simulate_protocol, "
     "simulate_protocol_time_course, update/scale_parameter, update_variable(s), simulate_to_steady_state, clear_results; "
     "end times and time points are drawn relative to the time already reached (later, much later, equal, earlier, "
-    "overlapping). Oracle: augmented matrix exponential (scipy.linalg.expm) from each segment's start state under the "
+    "overlapping). Oracle: augmented matrix exponential (own scaling-and-squaring Taylor implementation, cross-checked with scipy) from each segment's start state under the "
     "parameters in force, an abstract clock, and the refusal rule. Non-trivial: >=2 result-producing operations and at "
     "least one of override-after-simulation, parameter change between segments, steady state followed by another "
     "operation, illegal end time, overlapping time points; distinct by the sequence of (operation, context)."
@@ -29,13 +29,13 @@ ASSUMPTIONS = [
 ]
 TECHNIQUE = "model-based / stateful property testing of Simulator call histories against a closed-form (matrix exponential) oracle and an abstract clock"
 LEVEL_TEXT = "Generated operation histories with illegal and boundary end times, compared row by row with the closed-form solution; histories shrink as one value."
-LEVEL_NOTE = "Trusted: scipy.linalg.expm, the abstract clock in this file; only linear networks (closed form) are explored."
+LEVEL_NOTE = "Trusted: vlib.linear.expm (25-term Taylor, scaling and squaring), the abstract clock in this file; only linear networks (closed form) are explored."
 
 
 def budget(tier: str) -> dict:
     if tier == "quick":
         return {"examples": 500}
-    return {"examples": 1500, "shards": 16}
+    return {"examples": 1000, "shards": 16}
 
 
 # ----------------------------------------------------------------------
